@@ -841,14 +841,20 @@ func selftest(args []string) {
 	}
 	bad := 0
 	for _, id := range ids {
-		// 40 seeds, each in 3 fresh processes at GOMAXPROCS 1/4/16
+		// nSeeds seeds (VERIF_SELFTEST_SEEDS, default 120), each in 6 fresh processes
+		// at GOMAXPROCS 1/2/3/4/8/16: a divergence that shows in one process out
+		// of eight is missed four times in five by a two-run comparison
 		type key struct{ i int }
 		var mu sync.Mutex
 		hashes := map[int][]string{}
 		var wg sync.WaitGroup
 		sem := make(chan struct{}, 16)
-		for i := 0; i < 40; i++ {
-			for _, gmp := range []string{"1", "4", "16"} {
+		nSeeds := 120
+		if v, err := strconv.Atoi(os.Getenv("VERIF_SELFTEST_SEEDS")); err == nil && v > 0 {
+			nSeeds = v
+		}
+		for i := 0; i < nSeeds; i++ {
+			for _, gmp := range []string{"1", "2", "3", "4", "8", "16"} {
 				wg.Add(1)
 				sem <- struct{}{}
 				go func(i int, gmp string) {
@@ -871,7 +877,7 @@ func selftest(args []string) {
 		}
 		wg.Wait()
 		diverged := 0
-		for i := 0; i < 40; i++ {
+		for i := 0; i < nSeeds; i++ {
 			hs := hashes[i]
 			for _, h := range hs {
 				if h != hs[0] || h == "" {
@@ -881,7 +887,7 @@ func selftest(args []string) {
 				}
 			}
 		}
-		fmt.Printf("determinism %s: 40 seeds x 3 processes (GOMAXPROCS 1/4/16): %d diverged\n", id, diverged)
+		fmt.Printf("determinism %s: %d seeds x 6 processes (GOMAXPROCS 1/2/3/4/8/16): %d diverged\n", id, nSeeds, diverged)
 		bad += diverged
 	}
 	if bad > 0 {
